@@ -14,6 +14,7 @@ EXPLANATION = (
     "element of the leaf's args, and only recurses for parents. Decides these clauses exactly; not the printed text."
     ' R14.4 also: the argument lines are printed from the args of the Leaf being visited (the list the filters already pruned), identified as a canonical value expression, whether by a for loop or by for_each. R14.5 the Exact arm of Filter::is_match is whole-string equality of filter text and candidate path (round trip of listed paths). R14.6 the listed path is parent::name: on every path through one iteration of run_tree_list\'s loop the content of the reused path buffer at its first read is [parent, \'::\', display_name] when the parent is non-empty and [display_name] at the root, independent of what the previous sibling left (content tracked through clear/push_str/truncate). R14.7 the action the command line asks for: on every path of config_with_args from the --list test to the store into self.action the stored variant is the documented function of the flags (--list gives List, ListTerse exactly with --format terse; otherwise --test or no --bench gives Test; otherwise Bench). R14.8 (= R15.4) every listed case is one a run executes: the per-thread-count loop of run_bench_entry is never empty (an empty thread list becomes [1]).')
 EXPLANATION += (' R14.9 (= R13.6) a listed path given back as a filter reaches the filter set exactly as typed (no delimiter / parser / default on the clap definitions of filter and --skip).')
+EXPLANATION += (' R14.10 AnyBenchEntry::arg_names is Some(runner.arg_names()) exactly for an Args runner (an empty list is still Some).')
 NOT_DECIDED = ["textual equality of printed lines with cargo-nextest's expectations", "uniqueness of display paths"]
 
 USER_REACHING = ("benchmark::Bencher::new", "benchmark::BenchContext::new", "benchmark::BenchContext::compute_stats")
